@@ -8,7 +8,7 @@ open EzdxfVerif EzdxfVerif.XTags EzdxfVerif.Storage Proto
     rt|alive,alive,…|tags     -> <export(load t)>|<export(load(export(load t)))>     each part `ok tags` or `err kind`
     spec|alive,…|tags         -> wf ord|canon tags
     sect|records              -> ok tags | err kind        (stored sections of load_dxf_structure -> export)
-    struct|records            -> ok name=count;… | err kind (load_dxf_structure: section dict)
+    struct|records            -> ok name=count;… | err kind (load_dxf_structure + the deletion in Drawing._load)
     custom|name:value;…       -> tag:value;…               (HeaderSection custom property stack)
     written|name;name;…|tag:value;… -> name:value;…        (where CustomVars.write puts them)
     classes|name:cpp;…        -> name:cpp;…                (ClassesSection.register) -/
@@ -83,7 +83,8 @@ def step (line : String) : String :=
   | ["struct", r] =>
     (match (if r.isEmpty then some [] else (r.splitOn "/").mapM parseTags) with
      | some recs => (match loadStructure recs with
-       | .ok secs => "ok " ++ ";".intercalate (secs.map fun p => showV p.1 ++ "=" ++ toString p.2.length)
+       | .ok secs => "ok " ++ ";".intercalate ((secs.filter fun p => !isDeleted p.1).map fun p =>
+           showV p.1 ++ "=" ++ toString p.2.length)
        | .error e => "err " ++ showSErr e)
      | none => "bad-op")
   | ["custom", g] =>
